@@ -635,6 +635,27 @@ func (b *bmc) oneShot(extra []*Term) (SatResult, *Solver, float64) {
 			os.WriteFile(fmt.Sprintf("%s/%s-%s.smt2", d, b.harness, b.cfg.Key), b.prefix, 0o644)
 		}
 	})
+	if d := os.Getenv("SYMGO_DUMP"); d != "" {
+		b.statMu.Lock()
+		b.dumpN++
+		n := b.dumpN
+		b.statMu.Unlock()
+		var buf bytes.Buffer
+		ds := &Solver{tb: b.tb, emitted: map[int]bool{}, funs: map[string]bool{}, Name: "dump"}
+		ds.in = bufio.NewWriter(&buf)
+		for k := range b.prefixEmitted {
+			ds.emitted[k] = true
+		}
+		for k := range b.prefixFuns {
+			ds.funs[k] = true
+		}
+		for _, c := range extra {
+			ds.Assert(c)
+		}
+		ds.send("(check-sat)")
+		ds.in.Flush()
+		os.WriteFile(fmt.Sprintf("%s/%s-%s-q%d.smt2", d, b.harness, b.cfg.Key, n), append(append([]byte{}, b.prefix...), buf.Bytes()...), 0o644)
+	}
 	var answers []string
 	for _, name := range []string{"z3", "cvc5", "z3-new"} {
 		fs := &Solver{tb: b.tb, emitted: map[int]bool{}, funs: map[string]bool{}, Name: name, TimeoutS: b.e.solver.TimeoutS}
@@ -799,7 +820,7 @@ func (b *bmc) prepare(res *L2Result) {
 		res.Steps = b.K
 	}
 	res.Locations = len(b.vars)
-	if b.cfg.Options["deadlock"] {
+	if b.cfg.Options["deadlock"] && labelSelected("auto:no-deadlock") {
 		label := "auto:no-deadlock"
 		if b.stepEnc {
 			b.viol[label] = append(b.viol[label], tb.And(b.noneEnabledAt(b.K), b.notAllTerminalAt(b.K)))
